@@ -295,3 +295,46 @@ Proof.
   split; [exact control_first_frame_not_settings|]. split; [exact control_loop_frame_not_goaway|].
   exact control_loop_goaway.
 Qed.
+
+(** ** The first frame of a request stream (server) *)
+Lemma request_stream_rules :
+  (* anything but HEADERS first: H3_FRAME_UNEXPECTED on the connection *)
+  (forall c data fin maxHdr fr s',
+     c_closed c = None ->
+     parse_next (fuel_of (usrc data fin)) (usrc data fin) None = (inr fr, s', None) ->
+     (forall l hl, fr <> FHeaders l hl) ->
+     c_closed (fst (request_stream c data fin maxHdr)) = Some h3ErrCodeFrameUnexpected) /\
+  (* the stream ends before a frame: H3_REQUEST_INCOMPLETE on the stream, connection untouched *)
+  (forall c maxHdr, c_closed c = None ->
+     request_stream c [] true maxHdr = (c_set_closed c None, RReset h3ErrCodeRequestIncomplete)) /\
+  (* a HEADERS frame larger than the limit: 431 *)
+  (forall c data fin maxHdr th lh l rest,
+     c_closed c = None -> venc th 1 -> venc lh l -> data = th ++ lh ++ rest -> maxHdr < l ->
+     snd (request_stream c data fin maxHdr) = RTooLarge /\ c_closed (fst (request_stream c data fin maxHdr)) = None) /\
+  (* a complete block within the limit is handed on, byte for byte *)
+  (forall c data fin maxHdr th lh blk rest,
+     c_closed c = None -> venc th 1 -> venc lh (zlen blk) -> data = th ++ lh ++ blk ++ rest -> zlen blk <= maxHdr ->
+     snd (request_stream c data fin maxHdr) = RAccepted blk /\ c_closed (fst (request_stream c data fin maxHdr)) = None).
+Proof.
+  split.
+  { intros c data fin maxHdr fr s' Hc Hp Hn. unfold request_stream. fold (usrc data fin). rewrite Hc, Hp.
+    destruct fr as [l|l hl|st|id]; try (cbn; reflexivity). exfalso. exact (Hn l hl eq_refl). }
+  split.
+  { intros c maxHdr Hc. unfold request_stream. rewrite Hc. reflexivity. }
+  split.
+  { intros c data fin maxHdr th lh l rest Hc Ht Hl Hd Hm.
+    assert (Hrs : request_stream c data fin maxHdr = (c_set_closed c None, RTooLarge)).
+    { unfold request_stream. fold (usrc data fin). rewrite Hc.
+      destruct (parse_next_headers (length (s_data (usrc data fin))) (usrc data fin) None th lh l rest (usrc_benign data fin) Ht Hl Hd) as (s' & Hp & _).
+      unfold fuel_of. rewrite Hp. destruct (Z.gtb_spec l maxHdr); [|lia]. reflexivity. }
+    rewrite Hrs. split; reflexivity. }
+  intros c data fin maxHdr th lh blk rest Hc Ht Hl Hd Hm.
+  assert (Hrs : request_stream c data fin maxHdr = (c_set_closed c None, RAccepted blk)).
+  { unfold request_stream. fold (usrc data fin). rewrite Hc.
+    destruct (parse_next_headers (length (s_data (usrc data fin))) (usrc data fin) None th lh (zlen blk) (blk ++ rest) (usrc_benign data fin) Ht Hl Hd) as (s' & Hp & Hd' & _).
+    unfold fuel_of at 1. rewrite Hp. destruct (Z.gtb_spec (zlen blk) maxHdr); [lia|].
+    destruct (read_full_app (fuel_of s') s' blk rest [] Hd') as (s2 & Hr & _).
+    { unfold fuel_of. rewrite Hd', app_length. lia. }
+    rewrite Hr. reflexivity. }
+  rewrite Hrs. split; reflexivity.
+Qed.
